@@ -202,6 +202,8 @@ impl BytecodeBuilder {
 
     /// Emit an instruction and return its index
     pub fn emit(&mut self, op: Op) -> usize {
+        #[cfg(feature = "tsrun_verif")]
+        crate::verif::count_emit();
         let index = self.code.len();
 
         // Add source map entry if we have a span
